@@ -231,6 +231,16 @@ class ProgGen:
                      f"{self.unit_str(ci)} / {x}", f"3 * ({self.unit_str(ci, False)}", f"{x} ** 2 * {self.unit_str(ci)}"]
             return ["parse_expr", rng.choice(forms)]
         if r < 0.49:
+            if rng.random() < 0.3:
+                # equal units written in two orders share one memo entry: the second answer is the fresh one too
+                m = {}
+                for _ in range(3):
+                    m = mono_mul(m, {self.unit_str(ci, False): rng.choice([1, 1, -1, 2])})
+                if len(m) > 1:
+                    kind = rng.choice(["root", "base", "tobase"])
+                    rev = mono_str(dict(reversed(list(m.items()))))
+                    self.pending_q = [kind, rev] if kind != "tobase" else [kind, x, rev]
+                    return [kind, mono_str(m)] if kind != "tobase" else [kind, x, mono_str(m)]
             return ["root", self.unit_str(ci)]
         if r < 0.57:
             return ["base", self.unit_str(ci)]
